@@ -87,6 +87,14 @@ func applyProfile(g *Gen, profile string) {
 		g.MaxOpts = 7
 		g.PAliases = 70
 		g.UModes = []int{-1, 0, 1, 1, 2}
+	case "complete":
+		g.PMalformed = 0
+		g.PRequired = 5
+		g.PHelp = 70
+		g.PValid = 35
+		g.PAliases = 60
+		g.MaxArgv = 4
+		g.PRequireOrder = 10
 	case "soup":
 		g.PMalformed = 85
 		g.MaxArgv = 14
